@@ -32,7 +32,7 @@ ASSUMPTIONS = ["each pairwise step is the library's own merge_with on fresh copi
 REACH = [("yamlpath/commands/yaml_merge.py", "merge_condense_all,merge_across,merge_matrix,merge_docs,get_doc_mergers", "yaml_merge multi-document functions"),
          ("yamlpath/merger/mergerconfig.py", "get_multidoc_mode", "MergerConfig.get_multidoc_mode")]
 SIZES = {"quick": dict(lib=12000, cli=150), "thorough": dict(lib=400000, cli=3000)}
-REQUIRED_COUNTERS = ["lib_cases", "cli_cases", "matrix_cases", "anchored_stream_cases"]
+REQUIRED_COUNTERS = ["cli_stdin_stream_cases", "cli_stdin_stream_ends_empty", "lib_cases", "cli_cases", "matrix_cases", "anchored_stream_cases"]
 MODES = ["condense_all", "merge_across", "matrix_merge"]
 SAMPLE = [("deep", "all", "all", "unique"), ("deep", "unique", "deep", "unique"), ("deep", "all", "deep", "unique"),
           ("right", "right", "right", "right")]
@@ -203,6 +203,37 @@ def run_cli(ctx, ltexts, rtexts, combo, mode, workdir):
             return
 
 
+def run_cli_stdin(ctx, rng, ltexts, rtexts, combo, mode, workdir):
+    """The right-hand stream delivered through STDIN (explicit `-` or implicit) instead of a file: the stream is the same
+    stream, so exit status and output must be the same.  Streams may END in an empty document."""
+    rtexts = list(rtexts)
+    tail = rng.choice([None, "", "---\n", "--- ~\n", "--- null\n", "...\n"])
+    rstream = "".join("---\n%s\n" % t for t in rtexts if t is not None) + (tail or "")
+    if not rstream.strip("-\n ~."):
+        return
+    case = {"lhs_stream": ltexts, "rhs_stream_text": rstream, "mode": mode, "policies": combo, "via": "yaml-merge, file vs stdin"}
+    os.makedirs(workdir, exist_ok=True)
+    lf, rf = os.path.join(workdir, "l.yaml"), os.path.join(workdir, "r.yaml")
+    with open(lf, "w") as f:
+        f.write(stream_text(ltexts))
+    with open(rf, "w") as f:
+        f.write(rstream)
+    opts = ["-D", "yaml", "-M", mode, "-H", combo[0], "-A", combo[1], "-O", combo[2], "-E", combo[3]]
+    a = cli.run("yaml_merge", ["-S"] + opts + [lf, rf])
+    route = rng.choice(["dash", "implicit"])
+    b = cli.run("yaml_merge", opts + [lf] + (["-"] if route == "dash" else []), stdin_text=rstream)
+    ctx.evaluations += 1
+    ctx.counters["cli_stdin_stream_cases"] = ctx.counters.get("cli_stdin_stream_cases", 0) + 1
+    if tail:
+        ctx.counters["cli_stdin_stream_ends_empty"] = ctx.counters.get("cli_stdin_stream_ends_empty", 0) + 1
+    ctx.mark_nontrivial([ltexts, rstream, mode, combo, route])
+    if a["exc"] or b["exc"]:
+        ctx.violation("cli-crash/%s" % mode, {"case": case, "summary": (a["exc"] or b["exc"])[:200]})
+    elif (a["code"], a["out"]) != (b["code"], b["out"]):
+        ctx.violation("cli-stdin-stream-differs-from-file/%s" % mode, {"case": case, "summary": "file: exit %d %r ; %s stdin: exit %d %r" % (
+            a["code"], a["out"][:150], route, b["code"], b["out"][:150])})
+
+
 def gen_stream(rng, base=None):
     n = rng.choice([1, 1, 2, 2, 3, 4])
     out = []
@@ -273,6 +304,8 @@ def run_shard(ctx):
         if ncli < wcli and None not in rtexts and None not in ltexts:
             run_cli(ctx, ltexts, rtexts, combo, rng.choice(MODES), workdir)
             ncli += 1
+            if ncli % 2 == 0:
+                run_cli_stdin(ctx, rng, ltexts, rtexts, combo, rng.choice(MODES), workdir)
         n += 1
         if n <= 2:
             ctx.sample({"lhs_stream": ltexts, "rhs_stream": rtexts})
